@@ -34,6 +34,12 @@ CHECKS = {
                 tech="z3-term relational symbolic execution (lazy vs synchronised twin) of every fermionic op", ref="§4 C09", engine="B"),
     "C10": dict(text=B + " Complex entries as pairs of real terms; norm identities for conj/dagger in both operand orders and both option values; adjoint laws; doubled 2-3 tensor networks along sampled routes against the independent graded value of the ket network.", note=NOTE_B + " Involution is claimed for default options only; 3-tensor networks use real entries.",
                 tech="z3-term symbolic execution (complex) of conj/dagger/tensordot norm identities and doubled networks vs graded oracle", ref="§4 C10", engine="B"),
+    "C11": dict(text=B + " LAPACK is replaced by contract stubs (fresh symbolic factors constrained only by the documented contract); the library's block bookkeeping, sign handling (stabilised QR on the real _sgn path), bond construction and charge arithmetic run for real; reconstruction through the library's own contraction, orthonormality, triangularity, ordering, bond structure and solve are decided under the contracts (linear abstraction over monomials, then nlsat).", note=NOTE_B + " Assumes LAPACK meets its contract (validated numerically every run); blocks <= 2x2.",
+                tech="z3-term symbolic execution with LAPACK contract stubs; path controller for the stabilised-QR sign splits", ref="§4 C11", engine="B"),
+    "C12": dict(text=B + " Algebraic certificates at the level of the dense matrix under the LAPACK contract stubs (Ud^H Ud = I, Vd Vd^H = I, sd >= 0, Ud diag(sd) Vd = dense(x); eigh and solve likewise; norm^2 = sum |entries|^2).", note=NOTE_B + " The step from certificate to 'is the spectrum / the solution' is the textbook uniqueness theorem (trusted, unmechanised).",
+                tech="z3-term symbolic execution with LAPACK contract stubs; dense-level SVD/eigh/solve certificates", ref="§4 C12", engine="B"),
+    "C13": dict(text=B + " svd_truncated on symbolic singular values and a symbolic cutoff: the real sort/cumsum/count_nonzero/indexing run on terms, every branch is decided by the solver; on every feasible path the kept set equals an independent statement of the six rules intersected with the bond limit, kept slices are term-identical to the untruncated factors, monotone in the cutoff, absorb variants agree; the bond-split kernel for a symbolic integer limit.", note=NOTE_B + " Assumes pairwise distinct positive singular values; <=4 values (5 thorough).",
+                tech="forking z3-term symbolic execution of svd_truncated with SVD contract stub vs independent rule specification", ref="§4 C13", engine="B"),
     "C14": dict(text=B + " Operand snapshots (terms in order, tables, signs, labels) before/after every op; inplace=True equals out-of-place; out-of-place op followed by in-place follow-ups on the result leaves the operand unchanged.", note=NOTE_B,
                 tech="z3-term symbolic execution with operand snapshots; before==after obligations", ref="§4 C14", engine="B"),
     "C15": dict(text=B + " History/cache clause: for families of near-identical arrays (one attribute changed, incl. sub-index structure) every ordered pair of calls under cache sizes 1, 2 and default must reproduce the cache-free result exactly. " + A + " (default-mode context manager restored on normal and exceptional exit for every nesting depth <=3).", note=NOTE_B + " " + NOTE_A + " The thread-schedule clause of C15 is NOT claimed (not applicable to solver-based checking of this code: see not_applicable).",
